@@ -59,7 +59,8 @@ var versions = []string{"8.1", "7.4", "9.0", "0.0", "65535.65535", "65536.1", "1
 
 func genVersion(r *rand.Rand) string {
 	if r.Intn(3) > 0 {
-		return core.Pick(r, "8.1", "7.4", "9.0", "0.0", "65535.65535", "08.01", "10.10", "007.000")
+		// zero-padded components are decimal ("8.010" is 8.10, not 8.8), whatever digits they use
+		return core.Pick(r, "8.1", "7.4", "9.0", "0.0", "65535.65535", "08.01", "10.10", "007.000", "8.010", "010.0", "0017.012", "8.0x10", "0x8.1", "8.0b1", "8.1_0", "00000065535.0000000000000000000000001")
 	}
 	return core.Pick(r, versions...)
 }
